@@ -445,7 +445,7 @@ func runChild(mode string) (int, string) {
 var gateLevels = []int{-128, -2, -1, 0, 1, 3, 5, 6, 7, 8, 127}
 
 func runC04(c *Ctx) {
-	c.Res.Rule = "gate rows: (logger level, global level, optional BasicSampler, DisableSampling) x calls through every entry point (all 256 levels via WithLevel, the named level methods, Panic under recover, with and without Discard); exhaustive Go-side table 256x256x256; every reflected *Event method on a nil event (2 argument variants); Fatal in a child process; Level String/ParseLevel on all 256 levels and hostile strings. Non-trivial gate row = has both written and filtered calls"
+	c.Res.Rule = "gate rows: (logger level, global level, optional BasicSampler, DisableSampling) x calls through every entry point (all 256 levels via WithLevel, the named level methods, Panic under recover, with and without Discard); exhaustive Go-side table 256x256x256; every reflected *Event method on a nil event (2 argument variants); Fatal in a child process; Level String/ParseLevel on all 256 levels and hostile strings; MarshalText/UnmarshalText/ParseLevel on all 256 levels under replaced LevelFieldMarshalFunc namings and reassigned Level*Value variables; the gate and inertness for 16 entry points while another goroutine alternates the global level between two values (4 logger levels x 12 ordered pairs), judged on the events whose fate is the same under both values. Non-trivial gate row = has both written and filtered calls"
 	header := "From Coq Require Import String.\nFrom Verif Require Import Base.Prelude Misc.Level Lts.Sampler Misc.Gate Harness.C04H.\nLocal Open Scope string_scope."
 	c.OpenShards(header, "c04_case * c04_obs", "mismatches c04_run c04_eqb", 200)
 
@@ -747,4 +747,9 @@ func runC04(c *Ctx) {
 		c.AddCase(fmt.Sprintf("(CParse %s, %s)", CoqBytes([]byte(s)), obs), map[string]interface{}{"parse": s, "ok": err == nil, "level": int(p)})
 		c.Count("parse "+s, true)
 	}
+
+	// (f) the gate while the global level is being changed by another goroutine; (g) Level text forms under
+	// customised level names (more.go)
+	raceGlobalLevel(c)
+	customLevelNames(c)
 }
